@@ -75,6 +75,29 @@ def count_prefix(xs, k, pred, *extra):
     return sum(1 for j in range(k) if pred(xs[j], *extra))
 
 
+# ---- concatenation of a sequence of sequences (flat-map).  Natively plain Python; in proofs `flat_offset` is an
+# uninterpreted prefix function (pyvc.flat.q_flat_offset: defining equations at the index asked for, offsets
+# non-decreasing) and `is_flat_concat` is interpreted as written.  `piece` must be a pure module-level function.
+
+def flat_offset(xs, k, piece, *extra):
+    """len(piece(xs[0], *extra)) + ... + len(piece(xs[k-1], *extra)): where the piece of element k starts"""
+    return sum(len(piece(xs[j], *extra)) for j in range(k))
+
+
+def same_item(a, b):
+    """the same object (values that have no identity of their own -- strings, numbers: the same value)"""
+    return a == b if isinstance(a, (str, int)) else a is b
+
+
+def is_flat_concat(out, xs, n, piece, *extra):
+    """out is the in-order concatenation of piece(xs[0]), ..., piece(xs[n-1]):
+    the length is the sum of the lengths; item k of piece j is item flat_offset(j) + k of out."""
+    return len(out) == flat_offset(xs, n, piece, *extra) \
+        and forall_range(0, n, lambda j: forall_range(
+            0, len(piece(xs[j], *extra)),
+            lambda k: same_item(out[flat_offset(xs, j, piece, *extra) + k], piece(xs[j], *extra)[k])))
+
+
 def nat_of_str(s):
     """the number denoted by a non-empty string of ASCII digits, else -1 (SMT-LIB str.to_int)"""
     return int(s) if s != '' and all(c in '0123456789' for c in s) else -1
